@@ -165,4 +165,24 @@ CANARIES: Dict[str, Dict[str, Any]] = {
         old="return cast(float, 2**max_exponent * (2 - 2**-self.mantissa_bits))", new="return cast(float, 2**max_exponent * (2 - 2**-(self.mantissa_bits + 1)))",
         job="c13:range[E4M3]", expect=["max_absolute_value_is_largest_value"],
     ),
+    "sr-no-bias-correction": dict(
+        props=["C14"], file="unit_scaling/formats.py", module="unit_scaling.formats",
+        old="                offset += 1 << (srbitsbar - 1)", new="                offset += 0",
+        job="c14:quantise[E4M3,sr=4,threshold_normal]", expect=["rounds_away_iff"],
+    ),
+    "sr-offset-shifted-one-bit-too-far": dict(
+        props=["C14"], file="unit_scaling/formats.py", module="unit_scaling.formats",
+        old="                << srbitsbar\n", new="                << (srbitsbar + 1)\n",
+        job="c14:quantise[E5M2,sr=1,neighbour]", expect=["is_one_of_the_two_neighbours"],
+    ),
+    "sr-shared-draw-for-all-elements": dict(
+        props=["C14"], file="unit_scaling/formats.py", module="unit_scaling.formats",
+        old="0, 2**self.srbits, x.shape, dtype=torch.int32, device=x.device", new="0, 2**self.srbits, (1,), dtype=torch.int32, device=x.device",
+        job="c14:quantise[E4M3,sr=4,core]", expect=["independent_draw_per_element"],
+    ),
+    "sr-range-one-bit-short": dict(
+        props=["C14"], file="unit_scaling/formats.py", module="unit_scaling.formats",
+        old="0, 2**self.srbits, x.shape", new="0, 2 ** (self.srbits - 1), x.shape",
+        job="c14:quantise[E4M3,sr=4,core]", expect=["draw_is_uniform"],
+    ),
 }
